@@ -52,12 +52,31 @@ CATALOG = {
     ("tablespace", "temp"): ("CREATE TEMPORARY TABLESPACE ts4;", {"tablespace_name": "ts4", "type": None, "temporary": True}),
     ("tablespace", "big_temp"): ("CREATE BIGFILE TEMPORARY TABLESPACE ts5;", {"tablespace_name": "ts5", "type": "BIGFILE", "temporary": True}),
     ("tablespace", "small_temp"): ("CREATE SMALLFILE TEMPORARY TABLESPACE ts6;", {"tablespace_name": "ts6", "type": "SMALLFILE", "temporary": True}),
+    # literals holding a `;`, names that merely start with a keyword (declared, then used as column / attribute types and as role)
+    ("schema", "comment_semi"): ("CREATE SCHEMA sc8 COMMENT 'orders; invoices';", {"schema_name": "sc8", "comment": "'orders; invoices'"}),
+    ("type", "enum_semi"): ("CREATE TYPE s1.ty7 AS ENUM ('a', 'b;c', ';');", {"schema": "s1", "type_name": "ty7", "base_type": "ENUM", "properties": {"values": ["'a'", "'b;c'", "';'"]}}),
+    ("domain", "enum_semi"): ("CREATE DOMAIN s1.dm5 AS ENUM ('x;', 'y');", {"schema": "s1", "domain_name": "dm5", "base_type": "ENUM", "properties": {"values": ["'x;'", "'y'"]}}),
+    ("type", "kwp_lower"): ("CREATE TYPE array_kind AS ENUM ('a');", {"schema": None, "type_name": "array_kind", "base_type": "ENUM", "properties": {"values": ["'a'"]}}),
+    ("type", "kwp_upper"): ("CREATE TYPE s1.ARRAY_KIND AS ENUM ('a');", {"schema": "s1", "type_name": "ARRAY_KIND", "base_type": "ENUM", "properties": {"values": ["'a'"]}}),
+    ("domain", "kwp_cap"): ("CREATE DOMAIN Enum_code AS varchar(5);", {"schema": None, "domain_name": "Enum_code", "base_type": "varchar"}),
+    ("type", "object_kwp"): ("CREATE TYPE s1.ty8 AS OBJECT (f1 array_kind, f2 Enum_code, f3 int);",
+                             {"schema": "s1", "type_name": "ty8", "base_type": "OBJECT",
+                              "properties": {"attributes": [{"name": "f1", "type": "array_kind", "size": None}, {"name": "f2", "type": "Enum_code", "size": None},
+                                                            {"name": "f3", "type": "int", "size": None}]}}),
+    ("schema", "auth_kwp"): ("CREATE SCHEMA sc9 AUTHORIZATION array_admin;", {"schema_name": "sc9", "authorization": "array_admin"}),
+    ("schema", "auth_kwp_upper"): ("CREATE SCHEMA sc10 AUTHORIZATION ARRAY_ADMIN;", {"schema_name": "sc10", "authorization": "ARRAY_ADMIN"}),
+    ("database", "kwp"): ("CREATE DATABASE database_1;", {"database_name": "database_1"}),
+    ("tablespace", "kwp"): ("CREATE TABLESPACE Table_space1;", {"tablespace_name": "Table_space1", "type": None, "temporary": False}),
+    ("table", "uses_kwp"): ("CREATE TABLE tk (a array_kind, b Enum_code NOT NULL, c s1.table_t, d Default_kind, e index_kind);", {"table_name": "tk"}),
+    ("table", "uses_kwp_upper"): ("CREATE TABLE ta (a int, b ARRAY_KIND);", {"table_name": "ta"}),
     ("table", "uses_types"): ('CREATE TABLE tu (a s1.ty2, b dm1, c ty1 NOT NULL, d "S1"."Ty3");', {"table_name": "tu"}),
 }
 USES_TYPES = [("a", "s1.ty2"), ("b", "dm1"), ("c", "ty1"), ("d", '"S1"."Ty3"')]
+USES = {"tu": USES_TYPES, "tk": [("a", "array_kind"), ("b", "Enum_code"), ("c", "s1.table_t"), ("d", "Default_kind"), ("e", "index_kind")],
+        "ta": [("a", "int"), ("b", "ARRAY_KIND")]}
 MARKER = {"type": "type_name", "domain": "domain_name", "schema": "schema_name", "database": "database_name",
           "tablespace": "tablespace_name", "table": "table_name", "sequence": "sequence_name", "kwtable": "table_name"}
-FINDING_TAG = {("domain", "sizeless"): "domain_sizeless", ("schema", "ine_auth"): "schema_ine_auth"}
+FINDING_TAG = {("domain", "sizeless"): "domain_sizeless", ("schema", "ine_auth"): "schema_ine_auth", ("table", "uses_kwp_upper"): "array_prefix_type_position"}
 
 
 # keywords of the catalogue statements whose letter case is chosen by seed (AUTHORIZATION and OBJECT are compared by spelling
@@ -155,8 +174,8 @@ def compare_entity(kind, exp, exact, got):
                 paths.append(f"key.{k}")
     if kind == "kwtable" and [c["name"] for c in got.get("columns", [])] != KW_COLS:
         paths.append("kw_columns")
-    if kind == "table" and exp.get("table_name") == "tu":
-        if [(c["name"], c["type"]) for c in got.get("columns", [])] != USES_TYPES:
+    if kind == "table" and exp.get("table_name") in USES:
+        if [(c["name"], c["type"]) for c in got.get("columns", [])] != USES[exp["table_name"]]:
             paths.append("column_types")
     if kind == "type" and exp.get("type_name") == "ty6":
         if [(c["name"], c["type"], c["size"]) for c in (got.get("properties") or {}).get("columns", [])] != [("type", "int", None), ("comment", "varchar", 3), ("b", "int", None)]:
